@@ -256,9 +256,12 @@ func (c *checkCtx) validateTraces(fam, module, cfg string, traces []*rtrace, o t
 				}
 				mu.Lock()
 				c.validated += bad + 1
+				fromResult := c.lastRecord != nil && c.lastRecord.fromResult
 				c.mismatch(fam+"-trace", t.cs, map[string]J{"status": "rejected", "input": t.input,
 					"observed": map[string]J{"event_index": off, "event": line},
-					"expected": "an event the specification " + module + " allows at this point (see replay)", "detail": ""})
+					"expected": "an event the specification " + module + " allows at this point (see replay)", "detail": "",
+					// what --replay needs to record the case again and validate the new trace
+					"trace_module": module, "trace_cfg": cfg, "record_family": fam, "init_from_result": fromResult})
 				mu.Unlock()
 				batch = batch[bad+1:]
 				if round >= 4 {
